@@ -9,3 +9,16 @@ for m in ('utilities', 'lookups', 'hands', 'state', 'games', 'notation', 'analys
     out[m] = sorted(qualnames(ast.parse(open(f'/repo/pokerkit/{m}.py').read())))
 json.dump(out, open('/verif/pkstatic/known_names.json', 'w'), indent=0, sort_keys=True)
 print({k: len(v) for k, v in out.items()})
+
+# ... and, per function, the attributes of self / cls it writes (pkstatic/known_writes.json): a reviewed function that later writes
+# another attribute has a side effect no rule was written for (<PID>.writers)
+from pkstatic.model import Program
+from pkstatic.defined import written_attrs
+prog = Program()
+w = {}
+for mname, mi in prog.modules.items():
+    for ci in mi.classes.values():
+        for fi in ci.methods.values():
+            w[f'{mname}:{fi.qualname}'] = sorted(written_attrs(fi.node))
+json.dump(w, open('/verif/pkstatic/known_writes.json', 'w'), indent=0, sort_keys=True)
+print(len(w), 'methods with write sets')
